@@ -40,7 +40,7 @@ def octabox(sub=0):
     return dict(bitmap=bitmap, diag=(0, 255, 0, 255), subs=subs)
 
 
-def s_full(version=5, glat_version=3, compress=(), rtl=False, with_collision=True, subboxes=True, glyf=True, extra_attr_glyphs=0, dense_attrs=False, line_ends=False, cmap_edges=False, pass_bits=False, bad_glyph=None, bidi_pass=False, feat_pconstraint=False):
+def s_full(version=5, glat_version=3, compress=(), rtl=False, with_collision=True, subboxes=True, glyf=True, extra_attr_glyphs=0, dense_attrs=False, line_ends=False, cmap_edges=False, pass_bits=False, bad_glyph=None, bidi_pass=False, feat_pconstraint=False, just_step=1):
     names = ['notdef', 'space', 'a', 'b', 'c', 'd', 'x', 'y', 'z', 'acute', 'grave', 'pseudo', 'astral', 'lig', 'e', 'f']
     glyphs = []
     for i, n in enumerate(names):
@@ -51,7 +51,7 @@ def s_full(version=5, glat_version=3, compress=(), rtl=False, with_collision=Tru
             if with_collision:
                 c = GA['coll']
                 attrs.update({c: 1, c + 1: (-200) & 0xFFFF, c + 2: (-200) & 0xFFFF, c + 3: 200, c + 4: 200, c + 5: 10, c + 6: 5})
-        if n == 'space': attrs[GA['brk']] = 10; attrs[GA['jstretch']] = 400; attrs[GA['jshrink']] = 100; attrs[GA['jstep']] = 1; attrs[GA['jweight']] = 1
+        if n == 'space': attrs[GA['brk']] = 10; attrs[GA['jstretch']] = 400; attrs[GA['jshrink']] = 100; attrs[GA['jstep']] = just_step; attrs[GA['jweight']] = 1
         if n == 'pseudo': attrs[GA['pseudo']] = G['x']
         if pass_bits and n in ('c', 'd', 'e', 'f', 'space'): attrs[GA['passbits']] = 0b0110      # a segment made only of these glyphs skips passes 1 and 2
         if dense_attrs and n == 'e':          # a glyph that stores a value for EVERY attribute of the font (capacity == numAttrs)
@@ -92,6 +92,7 @@ def s_full(version=5, glat_version=3, compress=(), rtl=False, with_collision=Tru
              name='base mark mark > attach both'),
         Rule(0, [S('y')], A('PUSH_BYTE', 50, 'ATTR_SET', SLAT['shiftX'], 'PUSH_SHORT', 2, 188, 'ATTR_SET', SLAT['advX'], 'NEXT', 'RET_ZERO'), name='y {shift.x=50; adv=700}'),
         Rule(0, [S('d')], A('PUSH_BYTE', 40, 'ATTR_SET', SLAT['advY'], 'PUSH_BYTE', 0xEC, 'ATTR_SET', SLAT['shiftY'], 'NEXT', 'RET_ZERO'), name='d {adv.y=40; shift.y=-20}'),
+        Rule(0, [S('c'), S('d')], A('PUSH_SHORT', 3, 9, 'ATTR_SET', SLAT['advX'], 'NEXT', 'NEXT', 'RET_ZERO'), name='c {adv.x=777} / _ d   (the advance of c depends on its context)'),
     ])
     passes = [p0, p1, p2]
     flags = 1 if line_ends else 0          # bit 0: line-end contextuals (gr_seg_justify adds temporary line-end slots)
@@ -183,13 +184,13 @@ def write_all(outdir):
     fonts = {'s_min': s_min(), 's_full': s_full(), 's_full_z': s_full(compress=('Silf', 'Glat')), 's_full_v3': s_full(version=3, glat_version=1, with_collision=False),
              's_full_v4': s_full(version=4, glat_version=2, with_collision=False), 's_full_rtl': s_full(rtl=True), 's_full_nosub': s_full(subboxes=False),
              's_full_zs': s_full(compress=('Silf',)), 's_full_zg': s_full(compress=('Glat',)),
-             's_full_noglyf': s_full(glyf=False), 's_full_extra': s_full(extra_attr_glyphs=3), 's_full_dense': s_full(dense_attrs=True), 's_full_le': s_full(line_ends=True), 's_full_cmapedge': s_full(cmap_edges=True), 's_full_pb': s_full(pass_bits=True, feat_pconstraint=True), 's_full_bidi': s_full(bidi_pass=True), 's_full_rtl_bidi': s_full(rtl=True, bidi_pass=True), 's_full_badglyph': s_full(bad_glyph='e'), 's_full_badlast': s_full(bad_glyph='f'), 's_full_rtl_le': s_full(rtl=True, line_ends=True)}
+             's_full_noglyf': s_full(glyf=False), 's_full_extra': s_full(extra_attr_glyphs=3), 's_full_dense': s_full(dense_attrs=True), 's_full_le': s_full(line_ends=True), 's_full_cmapedge': s_full(cmap_edges=True), 's_full_pb': s_full(pass_bits=True, feat_pconstraint=True), 's_full_step': s_full(just_step=3), 's_full_unsorted': s_full(), 's_full_bidi': s_full(bidi_pass=True), 's_full_rtl_bidi': s_full(rtl=True, bidi_pass=True), 's_full_badglyph': s_full(bad_glyph='e'), 's_full_badlast': s_full(bad_glyph='f'), 's_full_rtl_le': s_full(rtl=True, line_ends=True)}
     fonts.update(feat_family())
     index = {}
     for name, spec in fonts.items():
         fm = FieldMap()
         tables = build_tables(spec, fm)
-        open(os.path.join(outdir, name + '.ttf'), 'wb').write(sfnt(tables))
+        open(os.path.join(outdir, name + '.ttf'), 'wb').write(sfnt(tables, 'reversed' if name.endswith('_unsorted') else 'sorted'))
         json.dump([list(x) for x in fm], open(os.path.join(outdir, name + '.fields.json'), 'w'))
         index[name] = dict(glyphs=len(spec['glyphs']), feats=len(spec.get('feats') or []))
     json.dump(index, open(os.path.join(outdir, 'index.json'), 'w'), indent=1)
